@@ -13,7 +13,7 @@ PROPS = {
                   "classifier answers range over success/ignore/dropped as the property states"],
  },
  "C04": {
-  "tests": ["TestC04", "TestC04TableEdge"],
+  "tests": ["TestC04", "TestC04TableEdge", "TestC04Allowance"],
   "rule": "random valid configurations of AIMD/Vegas/Gradient/Gradient2, each plain, traced, windowed and traced(windowed); sample streams "
           "mix structured phases (steady, idle, overload, drop bursts), boundary-targeted values computed from the implementation's "
           "state (in-flight around est/2 and est, RTT solved for Vegas' queue thresholds, RTT = baseline +-1) and edge values "
@@ -64,7 +64,7 @@ PROPS = {
   "technique": "Coq structural induction over the step function + differential replay",
  },
  "C16": {
-  "tests": ["TestC16", "TestC16Concurrent"],
+  "tests": ["TestC16", "TestC16Concurrent", "TestC16Traced"],
   "rule": "all six limit kinds x {plain, traced, windowed, traced(windowed)}, listeners registered at random points of the history, explicit SetLimit on the settable limit; "
           "non-trivial = a step that changed the reported estimate with at least one listener registered; distinct by (kind, wrapper, before, after, listener)",
   "level_text": "C16_step, C16_last_agrees, C16_suffix, C16_settable proved for every limit kind, wrapper and history.",
@@ -85,7 +85,7 @@ PROPS = {
   "technique": "Coq structural/real-number theorems over the binary64 model + bit-exact differential replay with reset twins",
  },
  "C01": {
-  "tests": ["TestC01", "TestC01Limiter", "TestC01Stress"],
+  "tests": ["TestC01", "TestC01Limiter", "TestC01Stress", "TestC01Panic"],
   "rule": "random acquire/release/SetLimit (0 and negative values included) sequences on the simple and precise strategies, compared step by step with the model; every TryAcquire "
           "is checked against the gate rule; plus a 16-goroutine stress run with a flipping limit and a harness-side holder counter; non-trivial = a distinct (busy, limit, decision)",
   "level_text": "C01_no_over_admission and C01_gate_decision are proved on a transition system with one label per atomic step of Acquire/TryAcquire/Release/SetLimit, for any number of "
@@ -96,7 +96,7 @@ PROPS = {
   "traces_from": ["C01"],
  },
  "C02": {
-  "tests": ["TestC02", "TestC02Races"],
+  "tests": ["TestC02", "TestC02Races", "TestC02Bare", "TestC01Panic"],
   "rule": "random histories of acquires, completions with the three outcomes, scripted estimate changes, partition adds/removes and virtual-time steps through the default limiter over "
           "all four strategy kinds, ending with a full drain and re-acquisition of the full limit; after every op gauge = busy = outstanding listeners; race-window replays (hand-off to a departed waiter, "
           "cancellation during the grant of the blocking limiter); non-trivial = a completed drain",
@@ -115,7 +115,7 @@ PROPS = {
   "technique": "Coq inductive invariant over all operation sequences + differential replay",
  },
  "C05": {
-  "tests": ["TestC05", "TestC05Races", "TestC05Stress", "TestC03Stress"],
+  "tests": ["TestC05", "TestC05Races", "TestC05Stress", "TestC03Stress", "TestC05Constructors"],
   "rule": "default limiter over all four strategy kinds with a scripted limit double (estimates 0, negative, repeated, large), random histories plus closing bursts that fill and close windows "
           "at instants around the period end; after every forwarded window the strategy limit and every share are checked; a real-time replay of two overlapping window updates with a slow strategy; non-trivial = a distinct closed window",
   "level_text": "C05_sync_init, C05_sync_update (same step as the forwarded sample), C05_shares_follow (SetLimit keeps the invariant 'every live bin has the share of the current total').",
@@ -189,7 +189,7 @@ PROPS = {
   "technique": "Coq/Flocq monotonicity theorem + differential replay of twin runs",
  },
  "C20": {
-  "tests": ["TestC20", "TestC20Strategies", "TestC20Concurrent", "TestC20Registry"],
+  "tests": ["TestC20", "TestC20Strategies", "TestC20Concurrent", "TestC20Registry", "TestC20Races", "TestC20Names"],
   "rule": "all six limit kinds (plain, traced) on a recording registry: every sample's emissions (kind = how the metric was registered, name, value) are compared with the model and with the oracle; "
           "strategies' in-flight samples and limit gauges are checked by driving all four strategies through random acquire/release/SetLimit histories (including limits lowered below the tokens outstanding); the go-metrics registry is driven through random Start/Stop/Register/Tick sequences on a virtual clock "
           "and polls are counted per period; the datadog registry is exercised once over a loopback UDP socket in real time; non-trivial = a distinct sample emission / tick situation",
